@@ -6,8 +6,11 @@ impl  = the REAL `insert-sync-barrier` applied to the rendered MLIR; the output 
         form (operation ids, classes evaluated by the real dispatching rules, SSA values, barrier positions)
 model = Lean `insertBarriers` on the block form derived from the abstract function (classes as the generator
         knows them) -> must be the same block, barrier for barrier
-oracle= the property on the real code, independent of the model: `insert-sync-barrier` then `dispatch-regions`
-        are applied; the dispatched IR is executed path by path (all branch outcomes; trip counts 0..2 for loops with
+        + the REAL `snax-to-func` on that output (every barrier becomes one call of @snax_cluster_hw_barrier at the
+        same position, deallocs are erased) vs Lean `lowerB`
+oracle= the property on the real code, independent of the model: `insert-sync-barrier`, `dispatch-regions` and then
+        `snax-to-func` are applied (the order of the real flow); both the dispatched IR and the FINAL lowered code
+        (barrier = func.call @snax_cluster_hw_barrier) are checked; the dispatched IR is executed path by path (all branch outcomes; trip counts 0..2 for loops with
         dynamic bounds, the REAL trip count ceil((ub-lb)/step) for loops whose bounds are arith.constant); who runs
         an operation is read off the core guards that dispatch-regions emitted; every barrier must be outside
         every core guard; inside an epoch no two operations of different core sets may touch a common buffer
@@ -253,7 +256,7 @@ class Conv:
     def block(self, block):
         res = []
         for op in block.ops:
-            if isinstance(op, self.snax.ClusterSyncOp):
+            if is_barrier(op):
                 res.append(["sync"])
             elif isinstance(op, self.scf.IfOp):
                 t = self.block(op.true_region.block)
@@ -268,6 +271,22 @@ class Conv:
         return res
 
 
+def is_barrier(op):
+    """A cluster barrier: `snax.cluster_sync_op`, or what snax-to-func lowers it to, `func.call @snax_cluster_hw_barrier`."""
+    from xdsl.dialects import func
+    from snaxc.dialects import snax
+    if isinstance(op, snax.ClusterSyncOp):
+        return True
+    return isinstance(op, func.CallOp) and op.callee.string_value() == "snax_cluster_hw_barrier"
+
+
+def lower(ctx, mod):
+    """The real `snax-to-func` in place (barriers -> calls of the runtime barrier, deallocs erased)."""
+    from snaxc.transforms.snax_to_func import SNAXToFunc
+    SNAXToFunc().apply(ctx, mod)
+    mod.verify()
+
+
 def find_func(mod):
     from xdsl.dialects import func
     for o in mod.ops:
@@ -277,7 +296,8 @@ def find_func(mod):
 
 
 def run_real(case, dispatch_cores=None):
-    """Parse, verify, number, apply insert-sync-barrier (and optionally dispatch-regions) in place."""
+    """Parse, verify, number, apply insert-sync-barrier in place; then either snax-to-func (correspondence of the
+    lowering, `low`) or dispatch-regions (the oracle continues with snax-to-func itself: the real order of the flow)."""
     from snaxc.transforms.insert_sync_barrier import InsertSyncBarrier
     src = render(case)
     ctx = snaxrun.fresh_ctx()
@@ -300,8 +320,10 @@ def run_real(case, dispatch_cores=None):
         from snaxc.transforms.dispatch_regions import DispatchRegions
         DispatchRegions(nb_cores=dispatch_cores).apply(ctx, mod)
         mod.verify()
-        return mod, conv, {"in": inp, "out": out_before, "struct": struct}
-    return mod, conv, {"in": inp, "out": conv.block(f.body.block)}
+        return mod, conv, {"in": inp, "out": out_before, "struct": struct, "ctx": ctx}
+    out = conv.block(f.body.block)
+    lower(ctx, mod)
+    return mod, conv, {"in": inp, "out": out, "low": conv.block(f.body.block)}
 
 
 class Structure:
@@ -417,7 +439,7 @@ def trace(conv, f, dec, nb_cores):
 
     def run(block, cores, stamp):
         for op in block.ops:
-            if isinstance(op, snax.ClusterSyncOp):
+            if is_barrier(op):
                 ev.append(("sync", cores))
             elif isinstance(op, scf.IfOp):
                 g = core_guard(op, scf)
@@ -594,6 +616,59 @@ def gen_case(rng):
     return {"kind": "prog", "nbuf": g.nbuf, "body": body}
 
 
+def gen_kernel(r):
+    """Kernel-shaped family: copy-in to a local buffer (DMA core), compute (compute core), copy-out, with the local
+    buffers allocated next to their use and DEALLOCATED between producer and consumer / before the copy-out / at the end;
+    as a straight line, as the body of a loop (dynamic or constant bounds), inside an scf.if (with and without else),
+    and as a loop inside an scf.if; optional pre-existing barrier closing the block."""
+    nbuf = r.randint(3, 4)
+    b = [f"b{i}" for i in range(nbuf)]
+    cnt = [0]
+
+    def kernel():
+        cnt[0] += 1
+        m1, m2 = f"m{2 * cnt[0] - 1}", f"m{2 * cnt[0]}"
+        local_out = r.random() < 0.5
+        out = m2 if local_out else r.choice(b)
+        st = [["alloc", m1]] + ([["alloc", m2]] if local_out else [])
+        st.append(["copy", r.choice(b), m1])
+        comp = ["dart", "snax_alu", m1, m1, out] if r.random() < 0.2 else ["gen", m1, r.choice([m1] + b), out]
+        st.append(comp)
+        free1 = r.random() < 0.75
+        where = r.choice(["between", "after"])
+        if free1 and where == "between":
+            st.append(["dealloc", m1])
+        if r.random() < 0.8:
+            st.append(["copy", out, r.choice(b)])
+        if free1 and where == "after":
+            st.append(["dealloc", m1])
+        if local_out and r.random() < 0.7:
+            st.append(["dealloc", m2])
+        if r.random() < 0.15:
+            st.append(["sync"])
+        return st
+
+    def loop(body):
+        return ["for", body, const_bounds(r) if r.random() < 0.4 else r.randint(0, 1)]
+
+    shape = r.choice(["line", "loop", "loop", "if", "loop-in-if", "if-in-loop", "two"])
+    if shape == "line":
+        body = kernel()
+    elif shape == "loop":
+        body = [loop(kernel())]
+    elif shape == "if":
+        body = [["copy", r.choice(b), r.choice(b)], ["if", kernel(), kernel() if r.random() < 0.4 else None, r.randint(0, 1)]]
+    elif shape == "loop-in-if":
+        body = [["if", [loop(kernel())], None, r.randint(0, 1)]]
+    elif shape == "if-in-loop":
+        body = [loop([["if", kernel(), None, r.randint(0, 1)], ["gen", r.choice(b), r.choice(b), r.choice(b)]])]
+    else:
+        body = kernel() + [loop(kernel())]
+    if r.random() < 0.5:
+        body.append(r.choice([["copy", r.choice(b), r.choice(b)], ["gen", r.choice(b), r.choice(b), r.choice(b)]]))
+    return {"kind": "kernel", "nbuf": nbuf, "body": body}
+
+
 SMALL_OPS = [["copy", "b0", "b1"], ["copy", "b1", "b0"], ["gen", "b0", "b0", "b1"], ["gen", "b1", "b1", "b0"],
              ["gen", "b0", "b0", "b0"], ["use", ["b0"]], ["use", ["b1"]], ["sync"]]
 
@@ -651,7 +726,8 @@ class C13(Prop):
     def cases(self, rng, tier):
         n = 400 if tier == "quick" else 6000
         for _ in range(n):
-            yield gen_case(random.Random(rng.getrandbits(48)))
+            r = random.Random(rng.getrandbits(48))
+            yield gen_kernel(r) if r.random() < 0.25 else gen_case(r)
         if tier == "thorough":
             yield from exhaustive_cases()
 
@@ -659,7 +735,7 @@ class C13(Prop):
         _, _, out = run_real(case)
         if "invalid_input" in out:
             return out
-        return {"out": out["out"], "in_real": out["in"]}
+        return {"out": out["out"], "in_real": out["in"], "low": out["low"]}
 
     def requests(self, case):
         return [{"fn": "c13.insert", "args": {"body": abstract_block(case), "fixed": FIXED_MODEL}}]
@@ -670,7 +746,7 @@ class C13(Prop):
             return {"model_error": a["err"]}
         if not a["ok"]["nodup"] or not a["ok"]["compoundAll"]:
             return {"model_error": "the block form violates the theorems' well-formedness predicate"}
-        return {"out": a["ok"]["out"], "in_real": abstract_block(case)}
+        return {"out": a["ok"]["out"], "in_real": abstract_block(case), "low": a["ok"]["low"]}
 
     def compare(self, case, impl_out, model_out):
         if "invalid_input" in impl_out:
@@ -686,13 +762,24 @@ class C13(Prop):
         mod, conv, out = run_real(case, dispatch_cores=nb)
         f = find_func(mod)
         found = {}
-        rng = random.Random(len(str(case["body"])))
-        for dec in Paths(300, rng):
-            v = check_trace(conv, out["struct"], trace(conv, f, dec, nb), nb)
-            if v is not None and v[1] not in found:
-                found[v[1]] = {"what": v[0] + f" (path decisions {dec.taken}, {nb} cores)", "finding": v[1]}
-                if v[1] is None:
+        # stage 1: the dispatched IR; stage 2: the code that runs, after the real snax-to-func (barrier = call of
+        # @snax_cluster_hw_barrier, deallocs gone)
+        for stage in ("after dispatch-regions", "after snax-to-func"):
+            if stage == "after snax-to-func":
+                try:
+                    lower(out["ctx"], mod)
+                except Exception as e:
+                    found[None] = {"what": f"snax-to-func raised {type(e).__name__}: {str(e)[:200]}", "finding": None}
                     break
+            rng = random.Random(len(str(case["body"])))
+            for dec in Paths(300, rng):
+                v = check_trace(conv, out["struct"], trace(conv, f, dec, nb), nb)
+                if v is not None and v[1] not in found:
+                    found[v[1]] = {"what": v[0] + f" ({stage}; path decisions {dec.taken}, {nb} cores)", "finding": v[1]}
+                    if v[1] is None:
+                        break
+            if None in found:
+                break
         # a new violation first
         return sorted(found.values(), key=lambda x: (x["finding"] is not None, str(x["finding"])))
 
